@@ -61,6 +61,11 @@ def gen_spec(rng, small=False):
                 tr['norow'] = True
                 tr['name'] = rows0[tr['id']]['name']
                 break
+    if rng.random() < 0.15:
+        # a window in the vertical only: first indices (1, 1, L0 > 1)
+        i0 = j0 = 1
+        for tr in tracers:
+            tr['k0'] = int(rng.integers(2, 5))
     nt = int(rng.integers(1, 3 if small else 5))
     tau0 = float(rng.integers(100000, 300000))
     return {'fmt': 'bpch', 'cats': cats, 'offsets': offsets[:ncat],
